@@ -17,6 +17,16 @@ use sos_sync::{
 };
 use std::collections::HashMap;
 
+/// Folders of a hash map in a deterministic order so that
+/// equal values have the same wire encoding.
+fn sorted_folders<T>(
+    folders: impl IntoIterator<Item = (sos_core::VaultId, T)>,
+) -> Vec<(sos_core::VaultId, T)> {
+    let mut folders = folders.into_iter().collect::<Vec<_>>();
+    folders.sort_by(|a, b| a.0.cmp(&b.0));
+    folders
+}
+
 impl ProtoBinding for Origin {
     type Inner = WireOrigin;
 }
@@ -278,8 +288,7 @@ impl From<CreateSet> for WireCreateSet {
             files: Some(value.files.into()),
             #[cfg(not(feature = "files"))]
             files: None,
-            folders: value
-                .folders
+            folders: sorted_folders(value.folders)
                 .into_iter()
                 .map(|(k, v)| WireSyncFolderPatch {
                     folder_id: encode_uuid(&k),
@@ -351,8 +360,7 @@ impl From<UpdateSet> for WireUpdateSet {
             files: value.files.map(|d| d.into()),
             #[cfg(not(feature = "files"))]
             files: None,
-            folders: value
-                .folders
+            folders: sorted_folders(value.folders)
                 .into_iter()
                 .map(|(k, v)| WireSyncFolderDiff {
                     folder_id: encode_uuid(&k),
@@ -629,8 +637,7 @@ impl From<TrackedChanges> for WireTrackedChanges {
             files: value.files.into_iter().map(|c| c.into()).collect(),
             #[cfg(not(feature = "files"))]
             files: Default::default(),
-            folders: value
-                .folders
+            folders: sorted_folders(value.folders)
                 .into_iter()
                 .map(|(k, v)| WireTrackedUserFolderChange {
                     folder_id: encode_uuid(&k),
